@@ -5,6 +5,8 @@ package main
 import (
 	"fmt"
 	"go/token"
+	"go/types"
+	"strings"
 
 	"golang.org/x/tools/go/ssa"
 )
@@ -24,7 +26,8 @@ func runC13(w *World, r *Report) {
 	r.Rule("C13/ROLLBACK", "the rollback record takes Config, Chart, Manifest and Hooks from the revision fetched with Storage.Get(name, target version)", 4)
 	r.Rule("C13/OVERLAY", "the key-by-key overlay used for carrying values forward deletes a key exactly on (present, null, not merging), stores a deployed value only where the new values lack the key, and keeps (new, deployed) slots in its recursion", 6)
 	c13Branches(w, r)
-	c13Current(w, r)
+	c13Current(w, r, "C13/CURRENT", false)
+	c13InstallValues(w, r, "C13/CURRENT")
 	c13Rollback(w, r)
 	r.Remap = func(rule string) string {
 		if rule == "C04/NULL-DELETES" || rule == "C04/DEST-WINS" {
@@ -229,7 +232,7 @@ func lenZeroGuard(g *Graph, fn *ssa.Function, v ssa.Value, b *ssa.BasicBlock) bo
 	return !ex
 }
 
-func c13Current(w *World, r *Report) {
+func c13Current(w *World, r *Report, rule string, onlyValues bool) {
 	reuse := w.Fn("pkg/action", "Upgrade.reuseValues")
 	if reuse == nil {
 		return
@@ -263,10 +266,13 @@ func c13Current(w *World, r *Report) {
 					}
 				}
 			}
-			r.Check(same, "C13/CURRENT", FuncName(fn)+"/reuse-arg", w.InstrPos(c), "values are carried forward from the release selected as current (deployed)", "values are carried forward from a different revision than the one selected as currently deployed")
+			if !onlyValues {
+				r.Check(same, rule, FuncName(fn)+"/reuse-arg", w.InstrPos(c), "values are carried forward from the release selected as current (deployed)", "values are carried forward from a different revision than the one selected as currently deployed")
+			}
 			// the result is stored as Config of the new record and is what the gate receives
 			res := resultN(c, 0)
 			storedCfg, rendered := false, false
+			otherVals := ""
 			for _, b := range fn.Blocks {
 				for _, in := range b.Instrs {
 					switch x := in.(type) {
@@ -275,21 +281,94 @@ func c13Current(w *World, r *Report) {
 							storedCfg = true
 						}
 					case ssa.CallInstruction:
-						if ff, _ := calleeOf(x.Common()); ff != nil && FuncName(ff) == "pkg/chart/v2/util.ToRenderValuesWithSchemaValidation" {
-							if a := x.Common().Args[1]; a == res || forwardAliases(res)[a] {
-								rendered = true
+						if ff, _ := calleeOf(x.Common()); ff != nil && valuesConsumer(ff) {
+							if a := stripConv(x.Common().Args[1]); a == res || forwardAliases(res)[a] {
+								if strings.HasPrefix(ff.Name(), "ToRenderValues") {
+									rendered = true
+								}
+							} else if ex, _ := g.PathExists(posOf(c), posOf(x), Avoid{}); ex {
+								otherVals = w.InstrPos(x)
 							}
 						}
 					}
 				}
 			}
-			r.Check(storedCfg, "C13/CURRENT", FuncName(fn)+"/recorded", w.InstrPos(c), "the carried-forward values are recorded as the new revision's Config", "the new revision's Config is not the result of the value-reuse step")
-			r.Check(rendered, "C13/CURRENT", FuncName(fn)+"/rendered", w.InstrPos(c), "the carried-forward values are the ones rendered", "the rendered values are not the result of the value-reuse step")
+			r.Check(otherVals == "", rule, FuncName(fn)+"/one-values-object", w.InstrPos(c), "dependency processing and rendering both receive the carried-forward values", "after the value-reuse step another values object is used at "+otherVals+": dependencies would be enabled, or templates rendered, from values that are not the ones recorded")
+			if onlyValues {
+				continue
+			}
+			r.Check(storedCfg, rule, FuncName(fn)+"/recorded", w.InstrPos(c), "the carried-forward values are recorded as the new revision's Config", "the new revision's Config is not the result of the value-reuse step")
+			r.Check(rendered, rule, FuncName(fn)+"/rendered", w.InstrPos(c), "the carried-forward values are the ones rendered", "the rendered values are not the result of the value-reuse step")
 		}
 	}
 	if n == 0 {
-		r.Bad("C13/CURRENT", "no-call", "-", "upgrade does not call the value-reuse step")
+		r.Bad(rule, "no-call", "-", "upgrade does not call the value-reuse step")
 	}
+}
+
+// stripConv: v without type conversions and interface boxing.
+func stripConv(v ssa.Value) ssa.Value {
+	for {
+		switch x := v.(type) {
+		case *ssa.ChangeType:
+			v = x.X
+		case *ssa.MakeInterface:
+			v = x.X
+		case *ssa.Convert:
+			v = x.X
+		default:
+			return v
+		}
+	}
+}
+
+// valuesConsumer: the chart-util entry points that decide from user values what is enabled and rendered.
+func valuesConsumer(f *ssa.Function) bool {
+	switch FuncName(f) {
+	case "pkg/chart/v2/util.ToRenderValuesWithSchemaValidation", "pkg/chart/v2/util.ToRenderValues", "pkg/chart/v2/util.ProcessDependencies", "pkg/chart/v2/util.ProcessDependenciesWithMerge":
+		return true
+	}
+	return false
+}
+
+// c13InstallValues: install hands one values object to dependency processing, to rendering and to the
+// record it creates.
+func c13InstallValues(w *World, r *Report, rule string) {
+	fn := w.Fn("pkg/action", "Install.RunWithContext")
+	if fn == nil {
+		r.Unk(rule, "install/anchor", "-", "Install.RunWithContext not found")
+		return
+	}
+	r.Fn(FuncName(fn))
+	vals := map[ssa.Value]string{}
+	n := 0
+	for _, c := range callInstrs(fn) {
+		f, _ := calleeOf(c.Common())
+		if f == nil || len(c.Common().Args) < 2 {
+			continue
+		}
+		if valuesConsumer(f) {
+			n++
+			vals[stripConv(c.Common().Args[1])] = w.InstrPos(c)
+		}
+		if FuncName(f) == "(*pkg/action.Install).createRelease" {
+			for _, a := range c.Common().Args {
+				if mp, ok := a.Type().Underlying().(*types.Map); ok && isStringType(mp.Key()) {
+					if _, isIface := mp.Elem().Underlying().(*types.Interface); isIface {
+						n++
+						vals[stripConv(a)] = w.InstrPos(c)
+					}
+				}
+			}
+		}
+	}
+	pos := ""
+	for _, p := range vals {
+		if pos == "" || p < pos {
+			pos = p
+		}
+	}
+	r.Check(len(vals) == 1 && n >= 3, rule, "install/one-values-object", w.Pos(fn.Pos()), fmt.Sprintf("%d uses (dependency processing, rendering, the new record) receive the same values object", n), fmt.Sprintf("install uses %d different values objects (%d uses; one at %s): dependencies would be enabled, or templates rendered, from values that are not the ones recorded", len(vals), n, pos))
 }
 
 func c13Rollback(w *World, r *Report) {
